@@ -1,4 +1,5 @@
 import GoldModel.Props.C10
+import GoldModel.Props.C11
 import GoldModel.Drive.Scope
 -- @mode scopespec Gold.Drive.ScopeSpecMode.run
 /-! driver mode `scopespec`: the *specification* of C10 / C11 (`plainSpec`, `declsAlong`, …)
@@ -20,6 +21,14 @@ def defSpec (w : Ws) (e : Entity) (o : Occ) : List Link :=
   | .own (some id) => (Gold.C10.declsAlong nrm w e (nrm id)).map linkTo
   | _ => []
 
+def compSpec (w : Ws) (e : Entity) (o : COcc) : List String :=
+  match o.ctx with
+  | .rhs l =>
+    match Gold.C10.operandEntity nrm w e o.time l with
+    | some a => Gold.C11.membersOf nrm w a
+    | none => []
+  | .lhs => (Gold.C11.paramsAndLocals nrm e o.scope ++ Gold.C11.visibleConstants nrm w e o.scope).map (·.id)
+
 def answer (w : Ws) (files : List File) : Query → String
   | .q f k l c =>
     match files[f]?, w[f]? with
@@ -27,6 +36,8 @@ def answer (w : Ws) (files : List File) : Query → String
       let p : Pos := ⟨l, c⟩
       if k == "d" then
         s!"d{f}:{l}:{c}=" ++ ",".intercalate ((defSpec w e (defOcc f file.stem file.root p)).map linkStr)
+      else if k == "c" then
+        s!"c{f}:{l}:{c}=" ++ ",".intercalate (sortLabels (compSpec w e (compOcc f file.stem file.root p)))
       else "bad-op"
     | _, _ => "bad-op"
 
